@@ -184,6 +184,10 @@ theorem enumName_safe : NameTextSafe RespSpec.enumName := by
 /-- non-vacuity of `DryRunSound`, premise true: the dry-run encode of the D28 repair accepts the example service … -/
 theorem exSvcSafe_dryRun : (encodesFirst true exSvcSafe).toOption.isSome = true := by decide +kernel
 
+/-- … every record of its announcement fits a datagram … -/
+theorem exSvcSafe_fits : Wire.Encode.FitAll (dryMsg exSvcSafe) := by
+  refine ⟨by decide +kernel, by decide +kernel, by decide +kernel, by decide +kernel⟩
+
 /-- … and its own records are encodable -/
 theorem exSvcSafe_safe : SvcSafe id 4500 exSvcSafe := by
   have henum := enumName_safe
@@ -232,7 +236,7 @@ theorem C15_populated_instance :
     intro b hb
     simp only [exPopulate, List.mem_cons, List.not_mem_nil, or_false] at hb
     rcases hb with rfl | rfl | rfl | rfl | rfl
-    · exact fun _ => exSvcSafe_safe
+    · exact ArgsInRange.of_safe id 4500 exSvcSafe_safe exSvcSafe_fits
     · show TypesSafe [exTypeA]
       intro t ht; simp only [List.mem_singleton] at ht; subst ht; exact exTypeA_safe
     · trivial
